@@ -59,14 +59,6 @@ SMALL = E.small_toy_curves()
 BIG = E.big_toy_curves()
 
 
-class _ToyGenerator(Generator):
-    """Generator.__new__ takes exactly five arguments, so the documented entropy_f argument cannot be
-    passed to the plain constructor; this subclass only lets it through (fixed blinding factor)."""
-
-    def __new__(cls, p, a, b, basis, order, entropy_f=None):
-        return tuple.__new__(cls, basis)
-
-
 _GENS = {}
 
 
@@ -75,7 +67,7 @@ def gen_of(params):
     g = _GENS.get(params)
     if g is None:
         p, a, b, gx, gy, n = params
-        g = _ToyGenerator(p, a, b, (gx, gy), n, lambda k: b"\x5a" * k)
+        g = Generator(p, a, b, (gx, gy), n, lambda k: b"\x5a" * k)      # public constructor, fixed blinding factor
         _GENS[params] = g
     return g
 
@@ -91,11 +83,6 @@ def cv(params):
 
 def _pt(P):
     return (None, None) if P is None else tuple(P)
-
-
-def _norm(P, p):
-    """a returned point with its coordinates reduced modulo p (see meta: unreduced abscissa r >= p)"""
-    return (None, None) if P[0] is None else (P[0] % p, P[1] % p)
 
 
 def _z_octets(z):
@@ -117,8 +104,7 @@ def impl_sign_k(params, d, z, k):
 
 
 def impl_recover(params, z, r, s, yp):
-    p = params[0]
-    return call(lambda: [_norm(P, p) for P in gen_of(params).possible_public_pairs_for_signature(z, (r, s), yp)])
+    return call(lambda: [tuple(P) for P in gen_of(params).possible_public_pairs_for_signature(z, (r, s), yp)])
 
 
 def impl_pub(params, d):
@@ -259,6 +245,8 @@ def toy_cases(rng, tier):
             yield case_verify(P, _some_point(c, rng), z, r, s)
             yield case_verify(P, _off_curve(c, rng), z, r, s)
             yield case_verify(P, None, z, r, s)
+            yield case_verify(P, (Q[0] + p, Q[1]), z, r, s)              # unreduced coordinates of a curve point
+            yield case_verify(P, (Q[0] - p, Q[1] + 2 * p), n, r, r)
             if z % n:
                 yield case_verify(P, _infinity_Q(c, z, r), z, r, s)
             yield case_recover(P, z, r, s, None)
@@ -285,6 +273,9 @@ def toy_cases(rng, tier):
         for d in (0, n, n + 1, -1, 2 ** 256, 256 ** ((n.bit_length() + 7) // 8) - 1, 256 ** ((n.bit_length() + 7) // 8)):
             yield case_sign(P, d, rng.randrange(1, n), min(n + 2, 60))
             yield case_pub(P, d)
+        if p < 50:
+            for r in range(1, n):                                # sum point = the key itself, given unreduced
+                yield case_verify(P, (c.g[0] + p, c.g[1]), n, r, r)
         for r in range(max(1, p - 2), min(n, p + 3)):          # abscissae around p (exist only when n > p)
             yield case_recover(P, rng.randrange(1, n), r, rng.randrange(1, n), None)
 
@@ -499,7 +490,14 @@ def chk_toy_noncanonical(params, Q, z, r, s):
 
 def toy_prop_cases(rng, tier):
     thorough = tier == "thorough"
-    lim = 61 if thorough else 13
+    # the corner that used to fail before commit bbdd27a (Curve.multiply returned unreduced coordinates for e = 1 mod n)
+    yield PropCase("toy_noncanonical", {"curve": _W, "q": (1, 2), "z": 13, "r": 8, "s": 8}, (lambda: chk_toy_noncanonical(_W, (1, 2), 13, 8, 8)))
+    for c in SMALL:
+        Q = c.g
+        for r in range(1, c.n):
+            yield PropCase("toy_noncanonical", {"curve": c.params(), "q": Q, "z": c.n, "r": r, "s": r},
+                           (lambda P=c.params(), Q=Q, n=c.n, r=r: chk_toy_noncanonical(P, Q, n, r, r)))
+    lim = 61 if thorough else 11
     for c in SMALL:
         P = c.params()
         if c.n <= lim:
@@ -722,8 +720,6 @@ def classify(pc, r):
         return "sign-nonce-run-exhausted-typeerror"
     if pc.name in ("toy_recover", "toy_sign") and k == "recovered-key-does-not-verify" and r.get("r_ge_p", False):
         return "recover-abscissa-not-below-p"
-    if pc.name == "toy_noncanonical" and k == "unreduced-public-pair-judged-differently" and r.get("corner"):
-        return "verify-unreduced-public-pair"
     return None
 
 
@@ -731,7 +727,6 @@ _W = (7, 0, 3, 1, 2, 13)
 KNOWN_REPLAYS = {
     "sign-nonce-run-exhausted-typeerror": lambda: chk_toy_sign(_W, 2, 11),
     "recover-abscissa-not-below-p": lambda: chk_toy_recover(_W, 1, 8, 1),
-    "verify-unreduced-public-pair": lambda: chk_toy_noncanonical(_W, (1, 2), 13, 8, 8),
 }
 
 
